@@ -217,5 +217,14 @@ func init() {
 		Rule: "each run = 1-3 clusters, 6-40 steps of: a new object version mutating one hot-reloadable section (servers/disabled, policies incl. subsets, schema references and log modes, flow-control schemas incl. type/strategy/size, feature-gate annotation added/changed/gate removed/annotation removed/annotations nil, logging, serving certificate and client CA, server names from a colliding pool) through the real admission plugin, admission lister or controller informer held back and released (watch_delay: name conflicts reach the controller and are requeued), time advancing across the 5 s requeues, delete and re-create; at final quiescence a fresh twin gateway is built in the same bubble from the latest objects only and compared per cluster through public accessors and routing probes; distinct = distinct trace hash; non-trivial = at least 3 versions applied",
 		Real: gwReal, Stub: gwStub, Assume: append([]string{"client connection settings are excluded (fixed at creation, as the statement says)", "runs whose final objects claim one name twice are not compared (which cluster serves it is C10's business)"}, gwAssume...),
 	})
+	reg(&Check{
+		ID:    "C10",
+		Title: "Tenant resolution: a host resolves to at most one cluster, and the right one",
+		Batches: []Batch{
+			{World: "gw", Profile: "c10-names", Quick: 200, Thor: 10000, PerProc: 1},
+		},
+		Rule: "each run = 2-4 clusters (one of them named like an alias of the pool), 8-45 steps of create/update with 0-3 server names drawn from a colliding mixed-case pool (incl. another cluster's name) and serving cert/client CA on or off, delete, re-create, admission lister or controller informer held back and released (conflicting claims reach the controller), clock advances, and stable points (no lag, 24 s later) with real requests whose Host header comes in drawn case with or without port; invariants at every boundary (a name resolves only to a claimant; an owner that claimed a name in every version never loses it), at stable points (deleted clusters stop resolving; with conflict-free latest objects resolution equals the claims; HTTP agrees with the manager) and TLS material per SNI at the end; distinct = distinct trace hash; non-trivial = at least 3 accepted writes",
+		Real: gwReal, Stub: gwStub, Assume: append([]string{"TLS selection is checked by calling WrapGetConfigForClient / SNIVerifyOptions directly (no handshakes are simulated)", "when two live latest objects claim one name the iff clause is not evaluated (which of them serves it is not stated)"}, gwAssume...),
+	})
 	reg(&Check{ID: "SMOKE", Title: "debug", Batches: []Batch{{World: "gw", Profile: "smoke", Quick: 1, Thor: 1, PerProc: 1}}})
 }
